@@ -61,10 +61,10 @@ PROPS["C06"] = dict(engine="E7", level="exploration",
    design_ref="DESIGN.md 5.6", technique="runtime monitoring: snapshot comparison at synctest quiescence barriers against the reference filter applied to the parent's cache; event-replay mirrors; race detector on")
 
 PROPS["C07"] = dict(engine="E8", level="exploration",
-   rule="exhaustive: 16 parent contents (all subsets of 4 objects that the filter family distinguishes) x all ordered pairs of the 14-member filter family (equal/rebuilt-equal, overlapping, disjoint, accept-all, accept-none, FN twin, and a chain of NSName filters ordered by inclusion) x 4 node variants (SubscribeWithFilter, SubscribeForFilter, CloneWithFilter + plain subscriber below, CloneForFilter + plain subscriber below); quick adds an equal-filter step for a third of the pairs, thorough runs every triple A->B->A'(rebuilt)->A''(equal). Each Refilter call between two quiescence barriers is one evaluation, all distinct by construction; every one is non-trivial (the delivered event multiset and the cache are compared with the exact expectation).",
+   rule="exhaustive: 16 parent contents (all subsets of 4 objects that the filter family distinguishes) x all ordered pairs of the 16-member filter family (equal/rebuilt-equal, overlapping, disjoint, accept-all, accept-none, FN twin, a chain of NSName filters ordered by inclusion, two composites differing only in a non-comparable child) x 4 node variants (SubscribeWithFilter, SubscribeForFilter, CloneWithFilter + plain subscriber below, CloneForFilter + plain subscriber below); quick adds an equal-filter step for a third of the pairs, thorough runs every triple A->B->A'(rebuilt)->A''(equal). Each Refilter call between two quiescence barriers is one evaluation, all distinct by construction; every one is non-trivial (the delivered event multiset and the cache are compared with the exact expectation).",
    assumptions=["no parent events in flight (the engine is the only producer and is idle around the call)"],
    floors={"any": {"refilters-with-delta": 2000, "refilters-silent": 500, "pairs": 6400}},
-   exhaustive_key="pairs", exhaustive_min=12544,
+   exhaustive_key="pairs", exhaustive_min=16384,
    level_text="Exhaustive enumeration of the stated finite family on the real filtered subscription / clone: events drained between two quiescence barriers around Refilter must be exactly one Delete per cached object the new filter rejects and one Create per newly accepted parent object, nothing else; cache == new filter over the content; equal filter silent; back to the earlier filter restores the view.",
    design_ref="DESIGN.md 5.7", technique="runtime monitoring: exact event-multiset oracle between synctest quiescence barriers around Refilter, exhaustive over contents x filter pairs x variants")
 
@@ -84,7 +84,7 @@ PROPS["C10"] = dict(engine="E11", level="exploration",
    design_ref="DESIGN.md 5.10", technique="runtime monitoring: per-leaf sequence checker (exact for healthy, in-order-subsequence + conservation lower bound for stalled), bounded-progress watchdog in virtual time")
 
 PROPS["C11"] = dict(engine="E12", level="exploration",
-   rule="seeded random trees of 8-12 nodes to depth 4 over a real controller mixing Subscribe / SubscribeWithFilter / SubscribeForFilter / Clone / CloneWithFilter / CloneForFilter / monitors; EVERY node of every tree as the victim x moment in {before ready, idle, events in flight, parked inside a Refilter, list in flight} x mechanism (node Close(); for the root also context cancel and a failing list); quick keeps half of the (victim, moment) pairs for non-root victims. distinct = (tree, victim, moment, mechanism); non-trivial = the victim's subtree was checked closed and every node outside checked alive (and, when the root survives, functional on 20 further mutations). Joins as tree members are exercised in E10 (C09 close clause).",
+   rule="seeded random trees of 8-12 nodes to depth 4 over a real controller mixing Subscribe / SubscribeWithFilter / SubscribeForFilter / Clone / CloneWithFilter / CloneForFilter / monitors; EVERY node of every tree as the victim x moment in {before ready, idle, events in flight, parked inside a Refilter, list in flight, list blocked until its context is cancelled} x mechanism (node Close(); for the root also context cancel and a failing list); quick keeps half of the (victim, moment) pairs for non-root victims. distinct = (tree, victim, moment, mechanism); non-trivial = the victim's subtree was checked closed and every node outside checked alive (and, when the root survives, functional on 20 further mutations). Joins as tree members are exercised in E10 (C09 close clause).",
    assumptions=["'eventually closes' is restated as: within 3 refresh periods + 10s of virtual time"],
    floors={"any": {"subtree-nodes-checked": 500, "outside-nodes-checked": 1000, "survivor-rounds": 100}},
    level_text="Seeded exploration over (tree x victim x moment x mechanism): after closing the victim every node of its subtree has Done() closed and Events() closed after its buffered events; every other node is still open and functional (caches follow the server, filtered nodes equal filter(parent), subscribers and monitors keep receiving).",
@@ -183,57 +183,72 @@ FLOORS_QUICK = {
   "drain-all-phases": 51,
   "mirror-checks": 364,
   "per-list-checks": 112,
-  "restart-version-checks": 5474
+  "post-list-checks": 120,
+  "restart-version-checks": 5491
  },
  "C04": {
-  "continuity-checks": 374,
-  "reconnect-version-checks": 456,
-  "reconnects": 456
+  "continuity-checks": 398,
+  "reconnect-version-checks": 673,
+  "reconnects": 673
  },
  "C05": {
-  "events-received": 325617,
-  "leaves": 1470,
-  "mid-burst-closes": 515,
-  "mid-burst-subscribers": 701
+  "burst-then-stop-cases": 40,
+  "controller-path-leaves": 281,
+  "events-received": 366498,
+  "leaves": 1771,
+  "mid-burst-closes": 533,
+  "mid-burst-subscribers": 719,
+  "stale-wire-events": 2362
  },
  "C06": {
-  "filtered-node-checks": 26511,
-  "filtered-node-checks-nonempty": 14800,
-  "mirror-checks": 11605,
-  "refilters": 6402
+  "filtered-node-checks": 20416,
+  "filtered-node-checks-nonempty": 11316,
+  "mid-flow-closes": 709,
+  "mirror-checks": 9405,
+  "refilters": 6429
  },
  "C07": {
-  "pairs": 12544,
-  "refilters-silent": 4680,
-  "refilters-with-delta": 3960
+  "pairs": 16384,
+  "refilters-silent": 6108,
+  "refilters-with-delta": 5156
  },
  "C08": {
-  "content-at-readiness-checks": 55554,
+  "content-at-readiness-checks": 55614,
+  "controller-readiness-cases": 60,
+  "directed-stale-inflight-attempts": 50,
+  "not-ready-while-listing-checks": 48,
   "ready-state-checks": 565320,
   "sequences": 52392
  },
  "C09": {
   "close-cycles": 220,
+  "empty-source-joins": 58,
   "join-content-checks": 630,
-  "join-content-checks-nonempty": 511,
+  "join-content-checks-nonempty": 498,
+  "join-context-cancelled-early": 100,
   "join-mirror-checks": 410,
+  "late-destination-joins": 9,
   "ready-order-checks": 220,
-  "refilter-points": 3935
+  "refilter-points": 3875
  },
  "C10": {
   "blocked-monitors-checked": 44,
   "cache-current-checks": 586,
   "healthy-streams-checked": 222,
-  "overruns": 12520,
-  "stalled-streams-checked": 180
+  "overruns": 12678,
+  "slow-streams-checked": 47,
+  "stalled-refilter-checks": 19,
+  "stalled-streams-checked": 180,
+  "stress-typed-cases": 8,
+  "stress-typed-reads": 16326
  },
  "C11": {
-  "outside-nodes-checked": 530,
-  "subtree-nodes-checked": 550,
-  "survivor-rounds": 65
+  "outside-nodes-checked": 633,
+  "subtree-nodes-checked": 634,
+  "survivor-rounds": 78
  },
  "C12": {
-  "post-done-api-calls": 27067,
+  "post-done-api-calls": 27059,
   "racing-calls": 1488,
   "set:trigger-points": 17,
   "terminations": 372
@@ -246,20 +261,20 @@ FLOORS_QUICK = {
  "C14": {
   "failstop-checks": 42,
   "never-ready-checks": 7,
-  "not-fatal-checks": 52
+  "not-fatal-checks": 56
  },
  "C15": {
   "big-histories": 24,
-  "big-snapshots": 47232,
+  "big-snapshots": 62253,
   "histories": 160,
   "linearizable": 160,
-  "reads": 23966
+  "reads": 26049
  },
  "C16": {
-  "callbacks": 2952,
+  "callbacks": 2959,
   "exact-stream-checks": 30,
   "init-content-checks": 63,
-  "no-callback-checks": 4
+  "no-callback-checks": 9
  },
  "C17": {
   "pairs": 2494242,
@@ -278,7 +293,7 @@ FLOORS_QUICK = {
  "C20": {
   "cache-comparisons": 4624,
   "callback-comparisons": 2312,
-  "foreign-objects-in-untyped-cache": 1312,
+  "foreign-objects-in-untyped-cache": 1282,
   "overflow-checks": 48,
   "request-checks": 34,
   "stream-comparisons": 6936
